@@ -43,5 +43,6 @@ def run(ctx):
 
 
 def replay(path):
-    print("re-run ./check C20")
-    return 2
+    from .. import core as _core
+
+    return _core.generic_replay(PROP if "PROP" in globals() else "C20", path, run, LEVEL)
